@@ -365,6 +365,9 @@ class Snapshot:
         global_keys = self._gather_keys(
             keys=list(app_state.keys()), pg_wrapper=pg_wrapper
         )
+        # This may involve collectives. Do it once, on all ranks, regardless of
+        # which stateful objects the rank has.
+        memory_budget_bytes = get_process_memory_budget_bytes(pg=pg_wrapper)
         for key in global_keys:
             self._load_stateful(
                 stateful_key=key,
@@ -373,6 +376,7 @@ class Snapshot:
                 storage=storage,
                 pg=pg_wrapper,
                 event_loop=event_loop,
+                memory_budget_bytes=memory_budget_bytes,
             )
             pg_wrapper.barrier()
 
@@ -386,6 +390,7 @@ class Snapshot:
                 storage=storage,
                 pg=pg_wrapper,
                 event_loop=event_loop,
+                memory_budget_bytes=memory_budget_bytes,
             )
         storage.sync_close(event_loop=event_loop)
         event_loop.close()
@@ -740,6 +745,7 @@ class Snapshot:
         storage: StoragePlugin,
         pg: PGWrapper,
         event_loop: asyncio.AbstractEventLoop,
+        memory_budget_bytes: Optional[int] = None,
     ) -> None:
         if stateful is None:
             return
@@ -777,7 +783,13 @@ class Snapshot:
 
         # Build the originally saved state dict and use it to restore the stateful
         state_dict = self._get_state_dict_for_manifest(
-            stateful_key, manifest, flattened, pg, storage, event_loop
+            stateful_key,
+            manifest,
+            flattened,
+            pg,
+            storage,
+            event_loop,
+            memory_budget_bytes=memory_budget_bytes,
         )
 
         if isinstance(stateful, torch.nn.Module):
@@ -796,6 +808,7 @@ class Snapshot:
         storage: StoragePlugin,
         event_loop: AbstractEventLoop,
         replicate_from_rank0: bool = False,
+        memory_budget_bytes: Optional[int] = None,
     ) -> Dict[Any, Any]:
         container_entries = {}
         read_reqs: List[ReadReq] = []
@@ -819,7 +832,8 @@ class Snapshot:
         if not is_batching_disabled():
             read_reqs = batch_read_requests(read_reqs=read_reqs)
 
-        memory_budget_bytes = get_process_memory_budget_bytes(pg=pg)
+        if memory_budget_bytes is None:
+            memory_budget_bytes = get_process_memory_budget_bytes(pg=pg)
         sync_execute_read_reqs(
             read_reqs=read_reqs,
             storage=storage,
